@@ -535,6 +535,10 @@ func (a *Analyzer) Feed(r *ev.Rec) {
 		}
 	case "harness-error":
 		a.rep.Inconclusive = append(a.rep.Inconclusive, "harness error: "+r.Err)
+	case "remote-error":
+		a.stat("remote-errors:" + r.Note)
+	case "remote-error-unrecognisable":
+		a.find("C18", "remote-error-not-the-sentinel", "", r.Q, "the remote client returned an error that reads %q but is not %s", r.Err, r.Note)
 	case "remote-info":
 		a.stat("remote-status-reports:" + r.Kind)
 		if r.Kind == "equal" && r.Cnt > 0 {
